@@ -38,6 +38,7 @@ func (r *run) body(evs []Ev) {
 	}
 	w.mongo.Auto = false
 	w.br.holdPub = r.cfg.HoldPub
+	seam.reset(r.cfg.Yields)
 	r.mon.afterSetup(r)
 	for i, e := range evs {
 		r.step = i + 1
